@@ -125,7 +125,16 @@ class RepoWorld(World):
         if base.sort == "Emitter":
             from specs.opaque import fresh_emitter
             return fresh_emitter(ex)
-        return super().ref_getattr(ex, base, attr)
+        try:
+            return super().ref_getattr(ex, base, attr)
+        except OutOfSubset:
+            if base.sort in getattr(self, "lenient_sorts", ()) and "unmodelled attribute" in str(OutOfSubset):
+                pass
+            if base.sort in getattr(self, "lenient_sorts", ()):
+                from specs.opaque import fresh_opaque
+                ex.assumptions_used.add(f"bookkeeping attributes of {base.sort} that are not modelled do not influence modelled state")
+                return fresh_opaque(ex)
+            raise
 
     def ref_setattr(self, ex, base, attr, v):
         if base.sort == "Emitter":
@@ -133,6 +142,8 @@ class RepoWorld(World):
             note_emission(ex, f"attribute {attr} of the lowering context assigned")
             return
         if base.sort == "Opaque":
+            return
+        if (base.sort, attr) not in self.fields and base.sort in getattr(self, "lenient_sorts", ()):
             return
         return super().ref_setattr(ex, base, attr, v)
 
